@@ -3,7 +3,7 @@
    elaboration (so precedence and associativity are as documented, for every tree of any
    depth), and evaluating that elaboration is evaluating the tree directly (promotion rules,
    short-circuit, zero-divisor errors). *)
-From PV Require Import Model.Exec Spec.SpecExpr.
+From PV Require Import Model.Exec Model.Api Spec.SpecExpr.
 From PV Require Import Tie.C07.
 Open Scope N_scope.
 
@@ -46,3 +46,18 @@ Example C07_witness :
                        (SNot (SBool false)) in
   swf e = true /\ elab e <> None /\ follow_ok [tsym y_var_close] = true.
 Proof. vm_compute. repeat split; discriminate. Qed.
+
+(* ---------- where the grammar differs from the property's order ---------- *)
+(* The property lists the unary operators ABOVE * / % ("^ binds tighter than unary minus/not, then
+   * / %").  pongo2's parser attaches a sign or a `not` to the whole TERM that follows: the source
+   "not 2 * 0" is read as not (2 * 0).  For the unary minus the two readings give the same value
+   (-(a*b) = (-a)*b, also for / and % with Go's truncation); for `not` they do not.  The printer of
+   the round-trip theorem above always parenthesises a product under a unary operator, so that
+   theorem does not speak about the unparenthesised form; this example does, through the whole
+   pipeline.  Open known finding C07-not-scopes-over-term. *)
+Example C07_not_scopes_over_term_refuted :
+  let w := mkWorld [] false false [] [] [] [] [] in
+  api_render_string w [123;123;32;110;111;116;32;50;32;42;32;48;32;125;125] (* {{ not 2 * 0 }} *) [] = OOk [49] (* 1 *) /\
+  api_render_string w [123;123;32;40;110;111;116;32;50;41;32;42;32;48;32;125;125] (* {{ (not 2) * 0 }} *) [] = OOk [48] (* 0 *) /\
+  api_render_string w [123;123;32;110;111;116;32;40;50;32;42;32;48;41;32;125;125] (* {{ not (2 * 0) }} *) [] = OOk [49] (* 1 *).
+Proof. vm_compute. repeat split. Qed.
